@@ -26,7 +26,11 @@ CFG = {
             "toml::from_str of a one-field struct in the toml crate's spelling, u = the same with every character written as a \\u escape, j = serde_json::from_str of a JSON string, "
             "k = the string as a TOML table key read through the type's Deserialize; all five must give what the grammar demands. Case variants: every ASCII-case variant (2^n; words "
             "over 10 letters sampled) of each of the six reserved words and of every alphanumeric word of the regex sources, alone and with every one-character prefix and suffix over the "
-            "alphabet, on all four identifier kinds (~25 000 cases; thorough also through the four literal macros: alone and with the prefixes / suffixes a Z 0 . - _ / space). Look-alikes: "
+            "alphabet, on all four identifier kinds (~25 000 cases; thorough also through the four literal macros: alone and with the prefixes / suffixes a Z 0 . - _ / space). Layout words: 28 words that mean something to the directory layout (.toml .json .sbom .sbom.cdx.json .sbom.spdx.json "
+            ".sbom.syft.json .cdx .tar .tgz .lock .d env env.build env.launch exec.d bin lib store.toml launch.toml build.toml plan.toml group.toml metadata layers cache config app sbom), each "
+            "in lower / upper / capitalised spelling: alone; as suffix and as prefix of the stems a, web, my-layer_1 glued directly and by . - _ /; around a stem (word stem word); between two "
+            "stems (directly and with dots); every ordered pair of words glued directly, by . and by / - 5 633 strings on all four identifier kinds through the five entry paths (22 532 cases; "
+            "thorough also through the four literal macros). Look-alikes: "
             "reserved words (both cases) with one letter replaced by a look-alike / case-folding / compatibility character (long s, dotless and dotted i, Kelvin sign, Cyrillic, Greek, "
             "Armenian, fullwidth, ordinal indicators), the word in fullwidth, a combining acute after every position; reserved words and 8 ordinary values decorated before / after / "
             "both / inside with 36 strings (BOM, ZWSP, ZWJ, NBSP, NEL, LS, PS, RLO, combining marks, VS16, CR, CRLF, LF, TAB, space, NUL, DEL, ESC, `.`, `..`, `%`, `%20`, `+`, fullwidth / Unicode "
